@@ -11,7 +11,8 @@
   What is proved here:
     §1 error taxonomy / totality   `trsoF_error_internal`, `identify_error_cases`, `identify_invalid_iff`,
                                    `identify_trichotomy`                                  (all inputs, any budget)
-       "never fails otherwise"     `trso_no_internal_error_partial` (no declared experiment: no failure at all),
+       "never fails otherwise"     **`trso_no_internal_error`** (ALL validated inputs: no exception), `trso_no_error_class`;
+                                   `trso_no_internal_error_partial` (no declared experiment, any separation test),
                                    `trso_only_activate_error_partial` (ALL validated inputs: the only failure that can
                                    remain is the NotImplementedError of `activate` on `One()`),
                                    `trso_no_recursion_or_key_error_partial`
@@ -22,9 +23,14 @@
                                    `trso_sound_no_surrogate`, `trso_no_surrogate_den_eq_id` (denotations)
     §4 semantics                   `den_sumSafe`, `line1_den`, and **`trso_sound`** (the first sentence of the property, at
                                    full strength: every run, every compatible family, every assignment)
-  What is NOT proved (visible below as an `-- OPEN:` block and listed in ASSUMPTIONS of the harness module):
-    trso_no_internal_error for inputs with declared experiments beyond "only `activate`'s NotImplementedError" (that
-    `activate` never meets `One()`).
+  The three sentences of the property are `trso_sound` (every returned estimand equals the target effect in every
+  compatible family), `trso_no_surrogate_iff_id_partial` / `trso_no_surrogate_none_iff_id_partial` /
+  `trso_no_surrogate_den_eq_id` (no DECLARED experiment: same verdict and same function as ID) and
+  `trso_no_internal_error` (no exception on validated input).  The one gap (kept as `_partial`): the VERDICT equivalence
+  with ID is proved for inputs whose source domains declare no experiment, not for "experiments declared, none usable"
+  (there `trso_sound` still gives the value, and the verdict is compared with the real `identify_outcomes` on every run).  The `…_partial` theorems of §1 are kept as the
+  intermediate results they are (subsumed by `trso_no_internal_error`).  Hypotheses everywhere: graph well-formed and
+  acyclic, node names below 100 (selection nodes are `200 + v`), outcomes non-empty, input validated.
 -/
 import Y0.Props.C06Transport
 import Y0.Lemmas.TrsoTotal
@@ -38,6 +44,7 @@ import Y0.Props.C02
 import Y0.Props.C01
 import Y0.Lemmas.TrsoSoundNoSurr
 import Y0.Lemmas.TrsoSound
+import Y0.Lemmas.TrsoTotalAll
 
 namespace Y0
 namespace Trso
@@ -166,7 +173,7 @@ theorem identify_invalid_iff {sep : SepTest} (hs : SepInternal sep) (G : MG Name
   · intro hv; unfold identifyTargetOutcomes; simp [hv]
 
 /-- **Trichotomy.**  On valid input the outcome is an estimand, "no estimand", or an internal error (the third case
-is what the property forbids; that it does not occur is checked by the correspondence on every run, see OPEN below). -/
+is what the property forbids; that it does not occur is `trso_no_internal_error` below). -/
 theorem identify_trichotomy {sep : SepTest} (hs : SepInternal sep) (G : MG Name) (Y X : List Name)
     (outcomes interventions : List (Pop × List Name)) (hv : validInput G Y X outcomes interventions = true) :
     (∃ e, identifyTargetOutcomes sep G Y X outcomes interventions = .ok (some e)) ∨
@@ -255,21 +262,48 @@ theorem trso_no_recursion_or_key_error_partial (G : MG Name) (hG : G.WF) (hA : G
 example : validInput (MG.fromEdges [] [(0, 1), (1, 2), (2, 3)] [(0, 2), (0, 3)]) [3] [2] [(1001, [1])] [(1001, [])] = true := by
   decide
 
--- OPEN: trso_no_internal_error  (the clause "it never fails other than by returning 'no estimand'", all inputs)
---   theorem trso_no_internal_error (G : MG Name) (hG : G.WF) (hA : G.Acyclic) (hsmall : ∀ v ∈ G.nodes, v < 100)
---       (hv : validInput G Y X outcomes interventions = true) (hY : Y ≠ []) :
---       ∀ k, identifyTargetOutcomes dSeparated G Y X outcomes interventions ≠ .error (.internal k)
---   Proved above: for inputs without declared experiments (`trso_no_internal_error_partial`), and for all inputs up to
---   ONE raise site (`trso_only_activate_error_partial`): `activate_domain_and_interventions` raises NotImplementedError
---   on `One()`.  What is missing is a shape argument about the estimands returned by the source-phase recursion: they
---   never contain `One()` (a joint carried inside a source domain always keeps the intervened variables as un-summed
---   children, line 9's numerator never cancels completely - its value would be >= 1 in the coin model whereas Q[c] < 1 -,
---   `canonicalize` never meets a fraction with canonically equal parts - the fraction would have value 1 in every model).
---   Evidence: structured search in the executable model (every DAG on 4 nodes listed in topological order x every
---   bidirected part x every disjoint non-empty X, Y x every experiment set meeting X x 5 surrogate-outcome sets:
---   10 158 080 inputs; 2.1 M random relabelled 5-node inputs with one or two domains) found no input on which the model
---   raises ANY exception; every run of the check compares the error category of the model and of the Python on ~10^4
---   inputs and reports any exception on valid input as a violation.
+/-- **C05, last sentence: TRSO never fails other than by returning "no estimand".**  For every validated input over a
+well-formed acyclic graph of user variables (names below 100) with non-empty outcomes - any number of source domains,
+any experiment and surrogate-outcome sets - `identify_target_outcomes` (instantiated with `are_d_separated`) returns an
+estimand or "no estimand": NO exception of any kind, in particular not the `NotImplementedError` that
+`activate_domain_and_interventions` raises on `One()` (the raise site `trso_only_activate_error_partial` left open).
+Proof (Lemmas/TrsoTotalAll on top of Lemmas/TrsoAll): the estimand returned by a run inside a source domain contains
+no `One()` (`srcShape`, Lemmas/TrsoShapeAll): followed in the COIN family (all variables binary, all mechanisms uniform),
+whose semantic invariant gives every sub-expression its value, `Sum.simplify` never sums out all children of a joint
+(the carried joint keeps the intervened variables as un-summed children), `Fraction.simplify` of line 9 cannot cancel to
+`One()` or `1 / …` (the c-factor of a district has value below 1, every denominator factor at most 1), and
+`canonicalize` never meets a fraction with canonically equal parts (its value would be 1; Lemmas/TrsoShapeCanon) -
+hence `activate` succeeds (`activate_ok_of_noOne`). -/
+theorem trso_no_internal_error (G : MG Name) (hG : G.WF) (hA : G.Acyclic) (hsmall : ∀ v ∈ G.nodes, v < 100)
+    (Y X : List Name) (outcomes interventions : List (Pop × List Name))
+    (hv : validInput G Y X outcomes interventions = true) (hY : Y ≠ []) :
+    ∃ r, identifyTargetOutcomes dSeparated G Y X outcomes interventions = .ok r := by
+  obtain ⟨graphs, hg⟩ := surrogateToTransport_ok hG hv
+  obtain ⟨hinv, hmu, hc, hr⟩ := qinitial_inv hG hA hsmall hv hY hg
+  rw [identify_eq_trso hv hg]
+  have hrk : G.Ranked := MG.acyclic_ranked hG hA
+  have hsmall' : ∀ v ∈ G.nodes, v < 200 := fun v hv => Nat.lt_trans (hsmall v hv) (by decide)
+  have hnoT : ∀ v ∈ G.nodes, isTnode v = false := noT_of_small hsmall'
+  have hsub : ∀ p ∈ graphs, RSub G p.2 := by
+    intro p hp
+    rcases (surrogateToTransport_spec hG hv hg).2 p hp with rfl | ⟨_, ns, hns, hp2⟩
+    · exact rsub_self
+    · rw [hp2]; exact rsub_ctd hsmall hns
+  have hts : TSem G hG hrk (targetPop :: graphs.map (fun p => p.1)) (fun _ => 0)
+      (initialQuery G Y X graphs interventions) G := by
+    refine ⟨fun _ _ => ?_, fun ha => absurd rfl ha⟩
+    exact famCtx_initial _ (coinFam_ok G hG hrk _) List.mem_cons_self rfl hnoT Y X graphs interventions hsub
+      (fun p _ v hne => absurd rfl hne) (fun p hp => List.mem_cons_of_mem _ (List.mem_map_of_mem hp))
+  obtain ⟨o, ho, _⟩ := trsoF_total G hG hrk _ (fun _ => 0) hsmall _ _ _ G hinv hc hr hmu hts
+  exact ⟨o, ho⟩
+
+/-- in particular: no internal error of any class on validated input -/
+theorem trso_no_error_class (G : MG Name) (hG : G.WF) (hA : G.Acyclic) (hsmall : ∀ v ∈ G.nodes, v < 100)
+    (Y X : List Name) (outcomes interventions : List (Pop × List Name))
+    (hv : validInput G Y X outcomes interventions = true) (hY : Y ≠ []) (err : Err) :
+    identifyTargetOutcomes dSeparated G Y X outcomes interventions ≠ .error err := by
+  obtain ⟨r, hr⟩ := trso_no_internal_error G hG hA hsmall Y X outcomes interventions hv hY
+  rw [hr]; intro h; cases h
 
 /-! ## 2. Selection diagrams, set-theoretically -/
 
